@@ -386,6 +386,14 @@ def case_C18(seed):
         r = 250.0 if use_latlon else (4.0 if abs(p0[0]) > 1e5 else 1.5)
         locs = [((p0[0], p0[1]), r)]
         sm, edges = build_sqlite(g, d, name='stored', use_latlon=use_latlon, how=how, **crs)
+        updated = [None, None, 'crs', 'metric', 'both'][seed % 5]
+        if updated:
+            # settings changed after creation and saved again (the properties table then holds an older and a newer row per key)
+            if updated in ('crs', 'both'):
+                sm.crs_lonlat, sm.crs_xy = 'EPSG:4269', 'EPSG:28992'
+            if updated in ('metric', 'both'):
+                sm.use_latlon = not use_latlon
+            sm.save_properties()
         orig = accessor_snapshot(sm, g, boxes, locs)
         vraw = view_sqlite_raw(sm)
         sm.db.close()
@@ -400,7 +408,8 @@ def case_C18(seed):
             if bad:
                 k = bad[0]
                 viol.append((f'C18:sqlite-reopen-differs:{k}', f"reopen #{c + 1} ({how}, use_latlon={use_latlon}): {k}: original {str(orig.get(k))[:200]} vs reopened {str(snap.get(k))[:200]}",
-                             {'graph': {str(kk): [list(v[0]), v[1]] for kk, v in g.items()}, 'use_latlon': use_latlon, 'how': how, 'crs': crs, 'cycle': c + 1, 'differs': bad}))
+                             {'graph': {str(kk): [list(v[0]), v[1]] for kk, v in g.items()}, 'use_latlon': use_latlon, 'how': how, 'crs': crs, 'cycle': c + 1, 'differs': bad,
+                              'settings_updated_and_saved_after_creation': updated}))
                 break
         # in-memory map through pickle
         im = InMemMap('pk', use_latlon=use_latlon, use_rtree=False, graph=copy.deepcopy(g), dir=d,
